@@ -35,6 +35,7 @@ type Config struct {
 	Concrete  map[string]string // replay: nondet name -> hex value (concrete mode)
 	ReplayTrace string
 	SolverLog string
+	ConcreteMode bool
 }
 
 type Engine struct {
@@ -387,4 +388,38 @@ func (i *interpreter) initPackage(fr *frame, pkg *ssa.Package) {
 	if init := pkg.Func("init"); init != nil {
 		callIn(i, fr, fr.g, token.NoPos, init, nil)
 	}
+}
+
+// ReplayConcrete re-executes a counterexample with every symbolic input bound
+// to its model value; it reports whether the same violation shows up again.
+func (e *Engine) ReplayConcrete(harness string, v *Violation) (bool, string) {
+	var fn *ssa.Function
+	for _, h := range e.Harnesses(harness) {
+		if h.Name() == harness {
+			fn = h
+		}
+	}
+	if fn == nil {
+		return false, "harness not found"
+	}
+	saved := e.Cfg
+	defer func() { e.Cfg = saved }()
+	e.Cfg.Concrete = v.Model
+	e.Cfg.Workers = 1
+	// only scheduler-like choices survive in concrete mode
+	var tr []string
+	for _, d := range parseTrace(v.Trace) {
+		if d.K == 'c' {
+			tr = append(tr, fmt.Sprintf("c%d", d.V))
+		}
+	}
+	e.Cfg.ReplayTrace = strings.Join(tr, " ")
+	e.Cfg.ConcreteMode = true
+	r := e.Run(fn)
+	for _, w := range r.Violations {
+		if w.Kind == v.Kind && (w.Label == v.Label || w.Kind != "assert") {
+			return true, ""
+		}
+	}
+	return false, fmt.Sprintf("paths=%v violations=%d", r.Paths, len(r.Violations))
 }
